@@ -158,3 +158,13 @@ def run_under_asan(prop, modname, cases, workdir, tier, jobs=None):
             r['keys'] = []
             r['samples'] = []
     return res + [summary]
+
+
+def asan_stage_on_sample(prop, modname, all_cases, workdir, tier, n_quick, n_thorough):
+    """ASan/UBSan stage for a check: an evenly spaced sub-sample of the check's own case list (every family represented).
+    Quick: only when the build is already there (setup.sh builds it); thorough: builds it when needed."""
+    if tier != 'thorough' and not available('asan'):
+        return []
+    n = n_thorough if tier == 'thorough' else n_quick
+    step = max(1, len(all_cases) // max(1, n))
+    return run_under_asan(prop, modname, all_cases[::step][:n + 8], workdir, tier)
